@@ -415,7 +415,8 @@ class Interp:
     def array_op(self, short, op, a):
         if short in ("get", "set", "borrow", "return") and len(a) >= 2:
             a = list(a)
-            a[1] = _realize(a[1])        # one path per index value instead of symbolic slicing (an index has at most n + 2 interesting values)
+            if 0 <= a[1] < len(a[0].v):
+                a[1] = _realize(a[1])    # inside [0, n): one path per index value instead of symbolic slicing; outside, only "outside" matters
         if short == "new_array":
             return [Arr(a)]
         if short == "get":
